@@ -21,7 +21,7 @@ Levels == {"default", "small", "zero"}
 NF == Len(Flags)
 
 TurnSpellings == {"off", "turn:h:p", "turn://h:p", "turns:h:p", "turns://h:p", "h:p", "turn:h:p?transport=tcp",
-                  "turns:h:p?servername=x", "turn:h:p?transport=udp"}
+                  "turns:h:p?servername=x", "turn:h:p?transport=udp", "turn:[v6]:p", "turns://[v6]:p", "[v6]:p"}
 PeerIdClasses == {"hex", "colon", "at", "slash", "question", "percent", "plus", "space", "unicode", "amp-eq", "hash"}
 
 VARIABLES cfg, turn, peer, phase
